@@ -49,6 +49,9 @@ func (n *EvalFunctionNode) Type(scope ReadOnlyScope) (ast.ValueType, error) {
 	}
 	signature := f.Signature()
 
+	if len(n.argsEvaluators) > maxArgs {
+		return ast.InvalidType, fmt.Errorf("too many arguments provided to function %q: got %d, at most %d are accepted", n.funcName, len(n.argsEvaluators), maxArgs)
+	}
 	domain := Domain{}
 	for i, argEvaluator := range n.argsEvaluators {
 		t, err := argEvaluator.Type(scope)
